@@ -1208,7 +1208,9 @@ fn process_fn(cx: &mut Ctx, vis: &Visibility, sig: &Signature, block: &Block, in
     // R-MUTSELF
     let mut mutself = false;
     if let Some(FnArg::Receiver(r)) = sig.inputs.first_mut() {
-        if r.reference.is_none() && r.mutability.is_some() { r.mutability = None; mutself = true; }
+        // every by-value receiver is rebound (`let mut this = self;`), whether or not the source declares it `mut`: annotations name `this`,
+        // and adding or dropping the `mut` is not an observable change
+        if r.reference.is_none() { r.mutability = None; mutself = true; }
     }
     if mutself {
         let ts = rename_ident_tokens(block.to_token_stream(), "self", "this");
